@@ -65,19 +65,30 @@ theorem read_base (base : List Opt) (m : Mem) (a c : Nat) (hc : ∀ i, m.cell a 
   · intro i h1 h2
     simp [hc, List.getD_eq_getElem?_getD, h2]
 
-/-! ### the invariant: every request reads its own options from an array nobody else refers to -/
+/-! ### the invariant: every request reads its own options from an array nobody else WRITES to -/
 
+/-- the origins for which isolation holds: a slice allocated per request, or a slice of the enclosing function whose capacity
+    equals its length (`make([]T, n)`, never appended to): every `append` to it reallocates, nobody ever writes to the shared array -/
+def safeOrigin : SliceOrigin → Bool
+  | .perRequest => true
+  | .captured (some 0) => true
+  | .captured _ => false
+
+/-- array 0 (the converted custom parameters the handler was created with) is never written; a request's header refers either to
+    array 0 WITHOUT spare capacity or to an array of its own -/
 structure Inv (base : List Opt) (progs : Nat → List Op) (s : Sys) : Prop where
   next : 1 ≤ s.mem.next
+  zero : ∀ i, s.mem.cell 0 i = base.getD i []
   prog : ∀ i, (s.reqs i).done ++ (s.reqs i).todo = progs i
   sent : ∀ i, (s.reqs i).sent = sentOf base (s.reqs i).done
   start : ∀ i, (s.reqs i).hdr = none → (s.reqs i).done = []
-  bound : ∀ i h, (s.reqs i).hdr = some h → 1 ≤ h.arr ∧ h.arr < s.mem.next
+  bound : ∀ i h, (s.reqs i).hdr = some h → (h.arr = 0 → h.cap ≤ h.len) ∧ h.arr < s.mem.next
   read : ∀ i h, (s.reqs i).hdr = some h → s.mem.read h = logicalOf base (s.reqs i).done
-  sep : ∀ i j h h', i ≠ j → (s.reqs i).hdr = some h → (s.reqs j).hdr = some h' → h.arr ≠ h'.arr
+  sep : ∀ i j h h', i ≠ j → (s.reqs i).hdr = some h → (s.reqs j).hdr = some h' → 1 ≤ h.arr → h.arr ≠ h'.arr
 
 theorem init_inv (base : List Opt) (progs : Nat → List Op) : Inv base progs (init base progs) where
   next := Nat.le_refl 1
+  zero := fun _ => by simp [init]
   prog := fun _ => rfl
   sent := fun _ => rfl
   start := fun _ _ => rfl
@@ -89,16 +100,20 @@ theorem init_inv (base : List Opt) (progs : Nat → List Op) : Inv base progs (i
     the same for every kind of step are discharged here once. -/
 theorem frame {base : List Opt} {progs : Nat → List Op} {s : Sys} (hI : Inv base progs s) (k : Nat) (m' : Mem) (r' : Req)
     (hnext : s.mem.next ≤ m'.next)
-    -- cells of arrays other requests refer to are untouched
-    (hcells : ∀ a i, a < s.mem.next → (∀ h, (s.reqs k).hdr = some h → a ≠ h.arr) → m'.cell a i = s.mem.cell a i)
+    -- cells of array 0 and of arrays other requests refer to are untouched
+    (hcells : ∀ a i, a < s.mem.next → (a = 0 ∨ ∀ h, (s.reqs k).hdr = some h → a ≠ h.arr) → m'.cell a i = s.mem.cell a i)
     (hprog : r'.done ++ r'.todo = progs k)
     (hsent : r'.sent = sentOf base r'.done)
     (hstart : r'.hdr = none → r'.done = [])
-    -- the moving request's new header: its own old array or a brand-new one
-    (hhdr : ∀ h', r'.hdr = some h' → 1 ≤ h'.arr ∧ h'.arr < m'.next ∧ m'.read h' = logicalOf base r'.done ∧
-        ((∃ h, (s.reqs k).hdr = some h ∧ h'.arr = h.arr) ∨ s.mem.next ≤ h'.arr)) :
+    -- the moving request's new header: the shared array without spare capacity, its own old array or a brand-new one
+    (hhdr : ∀ h', r'.hdr = some h' → (h'.arr = 0 → h'.cap ≤ h'.len) ∧ h'.arr < m'.next ∧ m'.read h' = logicalOf base r'.done ∧
+        ((∃ h, (s.reqs k).hdr = some h ∧ h'.arr = h.arr) ∨ s.mem.next ≤ h'.arr ∨ h'.arr = 0)) :
     Inv base progs { mem := m', reqs := fun j => if j = k then r' else s.reqs j } where
   next := Nat.le_trans hI.next hnext
+  zero := fun i => by
+    show m'.cell 0 i = _
+    rw [hcells 0 i hI.next (Or.inl rfl)]
+    exact hI.zero i
   prog := fun i => by
     by_cases hik : i = k
     · simp only [hik, if_true]; exact hprog
@@ -123,41 +138,66 @@ theorem frame {base : List Opt} {progs : Nat → List Op} {s : Sys} (hI : Inv ba
       rw [← hI.read i h hh]
       apply read_congr
       intro n _
-      exact hcells h.arr n (hI.bound i h hh).2 (fun hk hhk => hI.sep i k h hk hik hh hhk)
+      apply hcells h.arr n (hI.bound i h hh).2
+      by_cases h0 : h.arr = 0
+      · exact Or.inl h0
+      · exact Or.inr (fun hk hhk => hI.sep i k h hk hik hh hhk (Nat.pos_of_ne_zero h0))
   sep := fun i j h h' hij => by
     by_cases hik : i = k
     · have hjk : j ≠ k := fun e => hij (hik.trans e.symm)
       simp only [hik, if_true, hjk, if_false]
-      intro hh hh'
-      rcases (hhdr h hh).2.2.2 with ⟨h0, hh0, he⟩ | hge
-      · rw [he]; exact hI.sep k j h0 h' (fun e => hjk e.symm) hh0 hh'
+      intro hh hh' hpos
+      rcases (hhdr h hh).2.2.2 with ⟨h0, hh0, he⟩ | hge | hz
+      · rw [he]; exact hI.sep k j h0 h' (fun e => hjk e.symm) hh0 hh' (by rw [← he]; exact hpos)
       · exact fun e => absurd (hI.bound j h' hh').2 (by rw [← e]; exact Nat.not_lt.2 hge)
+      · rw [hz] at hpos; exact absurd hpos (by decide)
     · by_cases hjk : j = k
       · simp only [hik, if_false, hjk, if_true]
-        intro hh hh'
-        rcases (hhdr h' hh').2.2.2 with ⟨h0, hh0, he⟩ | hge
-        · rw [he]; exact hI.sep i k h h0 hik hh hh0
+        intro hh hh' hpos
+        rcases (hhdr h' hh').2.2.2 with ⟨h0, hh0, he⟩ | hge | hz
+        · rw [he]; exact hI.sep i k h h0 hik hh hh0 hpos
         · exact fun e => absurd (hI.bound i h hh).2 (by rw [e]; exact Nat.not_lt.2 hge)
+        · rw [hz]; exact fun e => absurd hpos (by rw [e]; decide)
       · simp only [hik, if_false, hjk]
         exact hI.sep i j h h' hij
 
-theorem step_inv {base : List Opt} {progs : Nat → List Op} {s : Sys} (grow : Nat → Nat) (u : Nat)
-    (hI : Inv base progs s) (k : Nat) : Inv base progs (step .perRequest base grow u s k) := by
+theorem step_inv {base : List Opt} {progs : Nat → List Op} {s : Sys} (o : SliceOrigin) (ho : safeOrigin o = true)
+    (grow : Nat → Nat) (u : Nat)
+    (hI : Inv base progs s) (k : Nat) : Inv base progs (step o base grow u s k) := by
   unfold step stepReq
   cases hh : (s.reqs k).hdr with
   | none =>
-    -- `opts := make(...)` + copy: a brand-new array
-    simp only [initOp]
-    refine frame hI k _ _ (Nat.le_succ _) ?_ (hI.prog k) (hI.sent k) (fun h => by simp at h) ?_
-    · intro a i ha _
-      have : a ≠ s.mem.next := Nat.ne_of_lt ha
-      simp [this]
-    · intro h' hh'
+    cases o with
+    | perRequest =>
+      -- `opts := make(...)` + copy: a brand-new array
+      simp only [initOp]
+      refine frame hI k _ _ (Nat.le_succ _) ?_ (hI.prog k) (hI.sent k) (fun h => by simp at h) ?_
+      · intro a i ha _
+        have : a ≠ s.mem.next := Nat.ne_of_lt ha
+        simp [this]
+      · intro h' hh'
+        simp only [Option.some.injEq] at hh'
+        subst hh'
+        refine ⟨fun e => absurd hI.next (by have e' : s.mem.next = 0 := e; omega), Nat.lt_succ_self _, ?_, Or.inr (Or.inl (Nat.le_refl _))⟩
+        rw [hI.start k hh]
+        exact read_base base _ _ _ (fun i => by simp)
+    | captured sp =>
+      -- `opts := shared`: the array of the enclosing function, capacity = length
+      have hsp : sp = some 0 := by
+        cases sp with
+        | none => simp [safeOrigin] at ho
+        | some n => cases n with
+          | zero => rfl
+          | succ n => simp [safeOrigin] at ho
+      subst hsp
+      simp only [initOp, spareOf]
+      refine frame hI k _ _ (Nat.le_refl _) (fun _ _ _ _ => rfl) (hI.prog k) (hI.sent k) (fun h => by simp at h) ?_
+      intro h' hh'
       simp only [Option.some.injEq] at hh'
       subst hh'
-      refine ⟨hI.next, Nat.lt_succ_self _, ?_, Or.inr (Nat.le_refl _)⟩
+      refine ⟨fun _ => Nat.le_refl _, hI.next, ?_, Or.inr (Or.inr rfl)⟩
       rw [hI.start k hh]
-      exact read_base base _ _ _ (fun i => by simp)
+      exact read_base base _ _ _ hI.zero
   | some h =>
     cases ht : (s.reqs k).todo with
     | nil =>
@@ -184,18 +224,22 @@ theorem step_inv {base : List Opt} {progs : Nat → List Op} {s : Sys} (grow : N
       | append x =>
         simp only [appendOp]
         by_cases hcap : h.len < h.cap
-        · -- in place, into the request's own array
+        · -- in place: only possible in the request's OWN array (the shared one has no spare capacity)
+          have harr : h.arr ≠ 0 := fun e => absurd ((hI.bound k h hh).1 e) (Nat.not_le.2 hcap)
           simp only [hcap, if_true]
           refine frame hI k _ _ (Nat.le_refl _) ?_ ?_ ?_ (fun h => by simp at h) ?_
           · intro a i _ hne
-            have : a ≠ h.arr := hne h hh
+            have : a ≠ h.arr := by
+              rcases hne with h0 | hne
+              · rw [h0]; exact fun e => harr e.symm
+              · exact hne h hh
             simp [this]
           · simpa [List.append_assoc] using hprogk
           · simp only [sentOf_snoc_append]; exact hI.sent k
           · intro h' hh'
             simp only [Option.some.injEq] at hh'
             subst hh'
-            refine ⟨(hI.bound k h hh).1, (hI.bound k h hh).2, ?_, Or.inl ⟨h, hh, rfl⟩⟩
+            refine ⟨fun e => absurd e harr, (hI.bound k h hh).2, ?_, Or.inl ⟨h, hh, rfl⟩⟩
             rw [logicalOf_snoc_append, ← hI.read k h hh]
             show Mem.read _ ⟨h.arr, h.len + 1, h.cap⟩ = _
             rw [read_succ _ h.arr h.len h.cap h.cap]
@@ -216,7 +260,7 @@ theorem step_inv {base : List Opt} {progs : Nat → List Op} {s : Sys} (grow : N
           · intro h' hh'
             simp only [Option.some.injEq] at hh'
             subst hh'
-            refine ⟨hI.next, Nat.lt_succ_self _, ?_, Or.inr (Nat.le_refl _)⟩
+            refine ⟨fun e => absurd hI.next (by have e' : s.mem.next = 0 := e; omega), Nat.lt_succ_self _, ?_, Or.inr (Or.inl (Nat.le_refl _))⟩
             rw [logicalOf_snoc_append, ← hI.read k h hh]
             rw [read_succ _ s.mem.next h.len _ h.cap]
             congr 1
@@ -227,40 +271,53 @@ theorem step_inv {base : List Opt} {progs : Nat → List Op} {s : Sys} (grow : N
               simp [this]
             · simp
 
-theorem run_inv {base : List Opt} {progs : Nat → List Op} (grow : Nat → Nat) (u : Nat) (sched : List Nat) (s : Sys)
-    (hI : Inv base progs s) : Inv base progs (run .perRequest base grow u s sched) := by
+theorem run_inv {base : List Opt} {progs : Nat → List Op} (o : SliceOrigin) (ho : safeOrigin o = true)
+    (grow : Nat → Nat) (u : Nat) (sched : List Nat) (s : Sys)
+    (hI : Inv base progs s) : Inv base progs (run o base grow u s sched) := by
   induction sched generalizing s with
   | nil => exact hI
-  | cons k t ih => exact ih _ (step_inv grow u hI k)
+  | cons k t ih => exact ih _ (step_inv o ho grow u hI k)
 
-/-- REQUEST ISOLATION (slice level).  The handler allocates its option slice per request: for EVERY schedule of the
-    requests' steps, every growth policy of `append`, and every path each request takes, a request has executed a
-    prefix of ITS OWN path and every `AuthURL` / `CodeExchange` call read exactly the functional list of that
-    request's own options. -/
+/-- REQUEST ISOLATION (slice level), for every safe origin: the handler allocates its option slice per request, OR it hands every
+    request the same slice of the enclosing function whose capacity equals its length (every append reallocates): for EVERY
+    schedule of the requests' steps, every growth policy of `append`, and every path each request takes, a request has executed a
+    prefix of ITS OWN path and every `AuthURL` / `CodeExchange` call read exactly the functional list of that request's own options. -/
+theorem isolation_safe (o : SliceOrigin) (ho : safeOrigin o = true) (base : List Opt) (progs : Nat → List Op) (grow : Nat → Nat)
+    (u : Nat) (sched : List Nat) (i : Nat) :
+    let r := (run o base grow u (init base progs) sched).reqs i
+    r.done ++ r.todo = progs i ∧ r.sent = sentOf base r.done :=
+  let hI := run_inv o ho grow u sched _ (init_inv base progs)
+  ⟨hI.prog i, hI.sent i⟩
+
+/-- the per-request case (the code as it is) -/
 theorem isolation (base : List Opt) (progs : Nat → List Op) (grow : Nat → Nat) (u : Nat) (sched : List Nat) (i : Nat) :
     let r := (run .perRequest base grow u (init base progs) sched).reqs i
     r.done ++ r.todo = progs i ∧ r.sent = sentOf base r.done :=
-  let hI := run_inv grow u sched _ (init_inv base progs)
-  ⟨hI.prog i, hI.sent i⟩
+  isolation_safe .perRequest rfl base progs grow u sched i
 
 /-! ### the regenerated facts -/
 
-/-- characterisation of the regenerated aliasing facts: both handlers allocate the option slice inside the closure, and
-    every append / index write inside the closures goes to a per-request slice -/
-theorem exchange_origin : GenAlias.CodeExchangeHandler_optsOrigin = .perRequest := by decide
-theorem authurl_origin : GenAlias.AuthURLHandler_optsOrigin = .perRequest := by decide
-theorem exchange_sites_perRequest : ∀ s ∈ GenAlias.CodeExchangeHandler_sliceSites, s.origin = .perRequest := by decide
-theorem authurl_sites_perRequest : ∀ s ∈ GenAlias.AuthURLHandler_sliceSites, s.origin = .perRequest := by decide
+/-- a slice site inside the closure is harmless: appends and reads go to a safe slice, an index WRITE only to a per-request one
+    (an index write through a captured slice writes the shared array, whatever its capacity) -/
+def safeSite (s : SliceSite) : Bool :=
+  if s.kind == "index" then s.origin == .perRequest else safeOrigin s.origin
+
+/-- characterisation of the regenerated aliasing facts: both handlers hand `AuthURL` / `CodeExchange` a slice of a safe origin
+    (today: allocated inside the closure), and every append / index write inside the closures is harmless -/
+theorem exchange_origin : safeOrigin GenAlias.CodeExchangeHandler_optsOrigin = true := by decide
+theorem authurl_origin : safeOrigin GenAlias.AuthURLHandler_optsOrigin = true := by decide
+theorem exchange_sites_perRequest : ∀ s ∈ GenAlias.CodeExchangeHandler_sliceSites, safeSite s = true := by decide
+theorem authurl_sites_perRequest : ∀ s ∈ GenAlias.AuthURLHandler_sliceSites, safeSite s = true := by decide
 
 theorem c17_exchange_isolated (base : List Opt) (progs : Nat → List Op) (grow : Nat → Nat) (u : Nat) (sched : List Nat) (i : Nat) :
     let r := (run GenAlias.CodeExchangeHandler_optsOrigin base grow u (init base progs) sched).reqs i
-    r.done ++ r.todo = progs i ∧ r.sent = sentOf base r.done := by
-  rw [exchange_origin]; exact isolation base progs grow u sched i
+    r.done ++ r.todo = progs i ∧ r.sent = sentOf base r.done :=
+  isolation_safe _ exchange_origin base progs grow u sched i
 
 theorem c17_authurl_isolated (base : List Opt) (progs : Nat → List Op) (grow : Nat → Nat) (u : Nat) (sched : List Nat) (i : Nat) :
     let r := (run GenAlias.AuthURLHandler_optsOrigin base grow u (init base progs) sched).reqs i
-    r.done ++ r.todo = progs i ∧ r.sent = sentOf base r.done := by
-  rw [authurl_origin]; exact isolation base progs grow u sched i
+    r.done ++ r.todo = progs i ∧ r.sent = sentOf base r.done :=
+  isolation_safe _ authurl_origin base progs grow u sched i
 
 /-! ### non-vacuity: the model expresses the defect, and the isolated case really sends something -/
 
